@@ -760,6 +760,10 @@ func c06MakeEnv(c *fw.Ctx) *c06Env {
 }
 
 func c06Run(c *fw.Ctx, b fw.Batch) {
+	if b.Kind == "shared" {
+		c06SharedRun(c, b)
+		return
+	}
 	procs := runtime.GOMAXPROCS(0)
 	env := c06MakeEnv(c)
 	defer os.RemoveAll(env.dir)
@@ -779,7 +783,7 @@ func init() {
 	fw.Register(&fw.Prop{
 		ID:    "C06",
 		Level: "exploration",
-		Rule: "many short gated histories (14 goroutines, ~500 operations each): 2 SetLimit writers with values unique in the history, 3 Extend writers (package level, on text/plain and application/zip looked up by name, on an earlier extension) passing caller-owned alias slices of every shape (nil, exact capacity, spare capacity 1-8 with the caller reading its spare slots concurrently, two slices sharing one backing array), names partly with upper-case letters; readers: Detect / DetectReader through a yielding one-byte reader / DetectFile on probe inputs that reveal the newest extension of each parent and the limit used, ordinary limit-sensitive inputs (6 KiB JSON, CSV, NDJSON, text with a late binary byte, late-deciding GeoJSON), Lookup of names being registered plus accessor calls (String, Extension, Parent, Is) on shared nodes; extension detectors yield while the read lock is held. GOMAXPROCS in {2, 4, 16}. Race batches run under the race detector; all histories are checked with porcupine per partition (limit register incl. sequential table T[x][v], one extension register per parent, one set per name, and a two-level snapshot register: children of a sub-format plus a root-level format that captures their probe, written by one goroutine). " +
+		Rule: "many short gated histories (14 goroutines, ~500 operations each): 2 SetLimit writers with values unique in the history, 3 Extend writers (package level, on text/plain and application/zip looked up by name, on an earlier extension) passing caller-owned alias slices of every shape (nil, exact capacity, spare capacity 1-8 with the caller reading its spare slots concurrently, two slices sharing one backing array), names partly with upper-case letters; readers: Detect / DetectReader through a yielding one-byte reader / DetectFile on probe inputs that reveal the newest extension of each parent and the limit used, ordinary limit-sensitive inputs (6 KiB JSON, CSV, NDJSON, text with a late binary byte, late-deciding GeoJSON), Lookup of names being registered plus accessor calls (String, Extension, Parent, Is) on shared nodes; extension detectors yield while the read lock is held. GOMAXPROCS in {2, 4, 16}. Shared-data batches: every corpus seed, signature variant and generated tar archive is detected as ONE slice by 6 goroutines at once (Detect and DetectReader; the slice sits in a read-only mapping in the plain build, so a write by the library faults; under the race detector a write is a race report) and every result must be the sequential one; then ONE returned value is walked (Parent chain, String, Extension, Is) by 6 goroutines at once and each must see the complete hierarchy. Race batches run under the race detector; all histories are checked with porcupine per partition (limit register incl. sequential table T[x][v], one extension register per parent, one set per name, and a two-level snapshot register: children of a sub-format plus a root-level format that captures their probe, written by one goroutine). " +
 			"non-trivial (informative) = at least one write overlapped a read in real time and the readers saw >= 3 distinct values; distinct = distinct (GOMAXPROCS, overlap bucket, number of distinct values read).",
 		Assumptions: []string{
 			"the limit and the tree are read at two instants, so they are checked as independent registers (a single common instant would alarm on correct code)",
@@ -798,6 +802,12 @@ func init() {
 			for i, p := range []int{2, 4, 16, 16} {
 				bs = append(bs, fw.Batch{Name: fmt.Sprintf("plain-procs%d-%d", p, i), Kind: "plain", Idx: 10 + i, N: np, TimeoutS: 3000, Env: []string{fmt.Sprintf("GOMAXPROCS=%d", p)}})
 			}
+			ns := 1
+			if tier == "thorough" {
+				ns = 12
+			}
+			bs = append(bs, fw.Batch{Name: "shared-race", Kind: "shared", Idx: 20, N: ns, Race: true, TimeoutS: 3000, Env: []string{"GOMAXPROCS=8"}})
+			bs = append(bs, fw.Batch{Name: "shared-plain", Kind: "shared", Idx: 21, N: 2 * ns, TimeoutS: 3000, Env: []string{"GOMAXPROCS=8"}})
 			return bs
 		},
 		Run: c06Run,
@@ -805,6 +815,17 @@ func init() {
 			var p c06Payload
 			if err := stdjson.Unmarshal(payload, &p); err != nil {
 				fmt.Println("bad payload:", err)
+				return
+			}
+			var sp c06SharedPayload
+			if stdjson.Unmarshal(payload, &sp) == nil && sp.What == "shared" {
+				fmt.Println("schedules are not deterministic: the shared-input case is re-run 200 times (read-only mapping)")
+				if sp.Procs > 0 {
+					runtime.GOMAXPROCS(sp.Procs)
+				}
+				for i := 0; i < 200 && c.NViol() == 0; i++ {
+					c06SharedCase(c, sp.In, sp.Limit, false, sp.Procs)
+				}
 				return
 			}
 			fmt.Println("schedules are not deterministic: the history with the recorded seed is re-run 30 times")
@@ -827,4 +848,129 @@ func init() {
 			return nil
 		},
 	})
+}
+
+// c06SharedPayload replays one shared-input / shared-result case.
+type c06SharedPayload struct {
+	What  string `json:"what"` // "shared"
+	In    []byte `json:"in"`
+	Limit uint32 `json:"limit"`
+	Procs int    `json:"gomaxprocs"`
+}
+
+// c06Shared: (1) ONE input slice is given to several goroutines' Detect /
+// DetectReader at the same time - the library may only read it (under the race
+// detector a write is a DATA RACE report; in the plain build the slice lives in a
+// read-only mapping, so a write faults and the case is pinned) and each result must
+// be the sequential one; (2) ONE returned value is read through its accessors by
+// several goroutines at once - each must see the complete hierarchy.
+func c06SharedCase(c *fw.Ctx, x []byte, lim uint32, race bool, procs int) {
+	pl := c06SharedPayload{What: "shared", In: x, Limit: lim, Procs: procs}
+	key := fw.InputKey(x, lim, "Detect/shared-by-goroutines")
+	c.Trace(func() (string, any) { return key, pl })
+	mimetype.SetLimit(lim)
+	want := lib.ChainOf(mimetype.Detect(append([]byte(nil), x...))).String()
+	buf := append([]byte(nil), x...)
+	var ro *lib.ROBuf
+	if !race {
+		ro = lib.NewROBuf(x)
+		buf = ro.B
+		defer ro.Free()
+	}
+	const G = 6
+	var wg sync.WaitGroup
+	gate := make(chan struct{})
+	got := make([]string, G)
+	for g := 0; g < G; g++ {
+		wg.Add(1)
+		go func(g int) {
+			defer wg.Done()
+			<-gate
+			for rep := 0; rep < 3; rep++ {
+				var m *mimetype.MIME
+				if g%3 == 2 {
+					m, _ = mimetype.DetectReader(bytes.NewReader(buf))
+				} else {
+					m = mimetype.Detect(buf)
+				}
+				if s := lib.ChainOf(m).String(); s != want {
+					got[g] = s
+				}
+			}
+		}(g)
+	}
+	close(gate)
+	wg.Wait()
+	c.Eval(G * 3)
+	c.Count("shared_input_rounds", 1)
+	for g, s := range got {
+		if s != "" {
+			c.Violate("shared-input-result", key, fmt.Sprintf("%d goroutines detected the SAME input slice at once; goroutine %d got %s, a sequential detection gives %s (limit %d)", G, g, s, want, lim), pl)
+			break
+		}
+	}
+	if !bytes.Equal(buf, x) {
+		c.Violate("shared-input-modified", key, "the shared input slice differs from its original content after the concurrent detections", pl)
+	}
+	// one returned value, many readers
+	m0 := mimetype.Detect(buf)
+	gate2 := make(chan struct{})
+	seen := make([]string, G)
+	for g := 0; g < G; g++ {
+		wg.Add(1)
+		go func(g int) {
+			defer wg.Done()
+			<-gate2
+			var parts []string
+			n := 0
+			for p := m0; p != nil && n < 64; p = p.Parent() {
+				parts = append(parts, p.String()+"|"+p.Extension())
+				if !p.Is(p.String()) {
+					parts = append(parts, "!Is")
+				}
+				n++
+			}
+			seen[g] = strings.Join(parts, " <- ")
+		}(g)
+	}
+	close(gate2)
+	wg.Wait()
+	c.Eval(G)
+	var ref []string
+	for p := mimetype.Detect(append([]byte(nil), x...)); p != nil; p = p.Parent() {
+		ref = append(ref, p.String()+"|"+p.Extension())
+	}
+	refS := strings.Join(ref, " <- ")
+	for g, s := range seen {
+		if s != refS {
+			c.Violate("half-built-result", key, fmt.Sprintf("a returned value was read by %d goroutines at once; goroutine %d saw the hierarchy [%s], a value read by one goroutine gives [%s]", G, g, s, refS), pl)
+			break
+		}
+	}
+	c.Distinct("shared|" + want)
+}
+
+func c06SharedInputs(r *rand.Rand) [][]byte {
+	ins := append([][]byte{}, lib.Seeds()...)
+	ins = append(ins, c18KnownTar())
+	for i := 0; i < 12; i++ {
+		a, _ := c18Archive(r)
+		ins = append(ins, a)
+	}
+	return ins
+}
+
+func c06SharedRun(c *fw.Ctx, b fw.Batch) {
+	procs := runtime.GOMAXPROCS(0)
+	ins := c06SharedInputs(c.Rand)
+	for rep := 0; rep < b.N; rep++ {
+		for _, x := range ins {
+			if len(x) > 20000 {
+				x = x[:20000]
+			}
+			lim := []uint32{3072, 3072, 0, 512, uint32(len(x))}[c.Rand.Intn(5)]
+			c06SharedCase(c, x, lim, b.Race, procs)
+		}
+	}
+	mimetype.SetLimit(3072)
 }
